@@ -131,30 +131,28 @@ def run(ch: Checker) -> None:
         ch.paths += 1
         if p.exit_kind != 'return':
             continue
-        for idx, st in p.stmts():
-            facts = dict(p.facts(idx))
-            for chn, kind, node in attr_effects(st):
-                if chn == 'self.must_flush_before_shutdown' and kind == 'store' and norm(node.value) == 'True':  # type: ignore[attr-defined]
-                    seen_set += 1
-                    if facts.get(HASBUF) is not True:
-                        bad1b = ('must_flush_before_shutdown is set on a path where pending output was not established', p.describe(20))
-            if isinstance(st, ast.Assign) and any(isinstance(t, ast.Name) and t.id == 'teardown' for t in st.targets) and norm(st.value) == 'True':
-                # teardown = True: either client EOF (data is None) or empty buffer
-                if facts.get('data is None') is True:
-                    continue
-                seen_td += 1
-                if facts.get(HASBUF) is not False:
-                    bad1b = ('teardown is signalled right after handle_data asked for it although the client buffer may hold the reply just queued '
-                             '(no `not has_buffer()` on the path)', p.describe(20))
-        # a path where handle_data returned True with pending buffer must set the flag
-        f2 = dict(p.facts())
-        if f2.get('r is True') is True and f2.get(HASBUF) is True:
-            sets = [1 for idx, st in p.stmts() for chn, kind, node in attr_effects(st) if chn == 'self.must_flush_before_shutdown' and norm(node.value) == 'True']  # type: ignore[attr-defined]
-            if not sets:
-                bad1b = ('handle_data asked for teardown with output pending but must_flush_before_shutdown is not set: the connection is never closed', p.describe(20))
-    ch.check(bad1b is None and seen_set >= 1, 'C07.1b', hr, 'must_flush_before_shutdown = True', 'flag set exactly when output is pending (%d site-path(s))' % seen_set,
+        sym = Sym(p)
+        fd = dict(p.facts())
+        last = p.stmts()[-1] if p.stmts() else None
+        rv = sym.value(last[1].value, last[0]) if last is not None and isinstance(last[1], ast.Return) and last[1].value is not None else None
+        returns_true = isinstance(rv, ast.Constant) and rv.value is True
+        sets_flag = [i for i, st in p.stmts() for chn, kind, node in attr_effects(st) if chn == 'self.must_flush_before_shutdown' and kind == 'store' and norm(node.value) == 'True']  # type: ignore[attr-defined]
+        asked = fd.get('r is True') is True or fd.get('r') is True or any(k.replace(' ', '') in ('risTrue', 'isinstance(r,bool)') and v is True for k, v in fd.items()) and fd.get('r is True') is not False
+        in_handler = any(gr.nodes[nid].kind == 'handler' for nid, lab in p.steps)
+        if sets_flag:
+            seen_set += 1
+            if fd.get(HASBUF) is not True:
+                bad1b = ('must_flush_before_shutdown is set on a path where pending output was not established', p.describe(20))
+        if returns_true and not in_handler and fd.get('data is None') is not True:
+            seen_td += 1
+            if fd.get(HASBUF) is not False:
+                bad1b = ('teardown is signalled right after handle_data asked for it although the client buffer may hold the reply just queued '
+                         '(no `not has_buffer()` on the path)', p.describe(20))
+        if fd.get('r is True') is True and fd.get(HASBUF) is True and not sets_flag:
+            bad1b = ('handle_data asked for teardown with output pending but must_flush_before_shutdown is not set: the connection is never closed', p.describe(20))
+    ch.check(bad1b is None and seen_set >= 1, 'C07.1b', hr, 'must_flush_before_shutdown = True', 'flag set exactly when output is pending (%d path(s))' % seen_set,
              bad1b[0] if bad1b else 'the flush-before-shutdown flag is never set', witness=bad1b[1] if bad1b else None)
-    ch.check(bad1b is None and seen_td >= 1, 'C07.1b', hr, 'teardown = True', 'immediate teardown only with an empty buffer (%d site-path(s))' % seen_td,
+    ch.check(bad1b is None and seen_td >= 1, 'C07.1b', hr, 'immediate teardown', 'immediate teardown only with an empty buffer (%d path(s))' % seen_td,
              bad1b[0] if bad1b else 'no immediate teardown path found', witness=bad1b[1] if bad1b else None)
 
     # ---------------- C07.2 get_events
@@ -189,42 +187,45 @@ def run(ch: Checker) -> None:
     gw = cfg_of(hw, prog)
     bad_t = bad_c = None
     n_t = n_c = 0
+    from ..cfg import atom_key
     for p in fpaths(gw):
         ch.paths += 1
         if p.exit_kind != 'return':
             continue
+        sym = Sym(p)
         flush_idx = [i for i, st in p.stmts() if _calls(st, 'self.work.flush')]
+
+        def facts_after_flush(upto: int) -> Dict[str, bool]:
+            out: Dict[str, bool] = {}
+            for i, (nid, lab) in enumerate(p.steps[:upto]):
+                nd = gw.nodes[nid]
+                if nd.kind == 'test' and lab in (True, False) and flush_idx and i > flush_idx[-1]:
+                    k, pol = atom_key(nd.ast, lab)  # type: ignore[arg-type]
+                    out[k] = pol
+            return out
+        last = p.stmts()[-1] if p.stmts() else None
+        rv = sym.value(last[1].value, last[0]) if last is not None and isinstance(last[1], ast.Return) and last[1].value is not None else None
+        if rv is not None and not (isinstance(rv, ast.Constant) and not rv.value):
+            n_t += 1
+            facts = facts_after_flush(last[0])  # type: ignore[index]
+            if isinstance(rv, ast.Constant) and rv.value is True:
+                if not (facts.get('self.must_flush_before_shutdown is True') is True and facts.get(HASBUF) is False):
+                    bad_t = ('teardown is signalled from handle_writables without `must_flush_before_shutdown is True and not has_buffer()` evaluated after the flush', p.describe())
+            elif norm(rv).replace(' ', '') == 'notself.work.has_buffer()':
+                if facts.get('self.must_flush_before_shutdown is True') is not True:
+                    bad_t = ('teardown derived from the buffer state outside the final-flush mode', p.describe())
+            else:
+                bad_t = ('handle_writables returns %s: not decidable as "final flush finished"' % norm(rv)[:60], p.describe())
         for idx, st in p.stmts():
-            # facts established AFTER the flush
-            after = [(g2, lab) for i, (nid, lab) in enumerate(p.steps[:idx]) for g2 in [gw.nodes[nid]] if g2.kind == 'test' and flush_idx and i > flush_idx[-1]]
-            facts = {}
-            from ..cfg import atom_key
-            for n2, lab in after:
-                k, pol = atom_key(n2.ast, lab)  # type: ignore[arg-type]
-                facts[k] = pol
-            sym = Sym(p)
-            if isinstance(st, ast.Assign) and any(isinstance(t, ast.Name) and t.id == 'teardown' for t in st.targets):
-                v = norm(st.value)
-                if v == 'False':
-                    continue
-                n_t += 1
-                if v == 'True':
-                    if not (facts.get('self.must_flush_before_shutdown is True') is True and facts.get(HASBUF) is False):
-                        bad_t = ('teardown is signalled from handle_writables without `must_flush_before_shutdown is True and not has_buffer()` evaluated after the flush', p.describe())
-                elif v.replace(' ', '') in ('notself.work.has_buffer()',):
-                    if facts.get('self.must_flush_before_shutdown is True') is not True:
-                        bad_t = ('teardown derived from the buffer state outside the final-flush mode', p.describe())
-                else:
-                    bad_t = ('teardown is assigned %s: not decidable as "final flush finished"' % v[:60], p.describe())
             for chn, kind, node in attr_effects(st):
                 if chn == 'self.must_flush_before_shutdown' and kind == 'store':
                     n_c += 1
                     if norm(node.value) != 'False':  # type: ignore[attr-defined]
                         continue
-                    if facts.get(HASBUF) is not False:
+                    if facts_after_flush(idx).get(HASBUF) is not False:
                         bad_c = ('must_flush_before_shutdown is cleared while output may still be pending (no `not has_buffer()` after the flush): when the reply needs more than one '
                                  'flush the teardown is never signalled and the connection lingers until the idle reaper', p.describe())
-    ch.check(bad_t is None and n_t >= 1, 'C07.2b', hw, 'teardown after final flush', 'teardown only when the final flush emptied the buffer', bad_t[0] if bad_t else 'no teardown assignment', witness=bad_t[1] if bad_t else None)
+    ch.check(bad_t is None and n_t >= 1, 'C07.2b', hw, 'teardown after final flush', 'teardown only when the final flush emptied the buffer', bad_t[0] if bad_t else 'handle_writables never signals teardown', witness=bad_t[1] if bad_t else None)
     ch.check(bad_c is None and n_c >= 1, 'C07.2b', hw, 'flag cleared', 'flag cleared only when the buffer is empty', bad_c[0] if bad_c else 'flag never cleared', witness=bad_c[1] if bad_c else None)
 
     # ---------------- C07.3 threaded shutdown
